@@ -16,7 +16,7 @@ RULE = ('(a) Library round trip through the harness: samples are built in memory
         'result computed on the in-memory array (nk, filtered alignments, distances, map alignment and VCF, weed, delete) is '
         'compared with the same result computed after save + load (load tries 64 bits then 128, as the command line does); all '
         '30 k, tables from a handful to ~20 000 rows (several compression frames).  (b) Command line: `ska align/map <fastas>` '
-        '(in-memory route, k=17) against `ska build` + the same command on the file.  (c) Narrow files: for k in '
+        '(in-memory route, k=17; sequence files, and read files with qualities around the default threshold and multiplicities around the default count) against `ska build` with default options + the same command on the file.  (c) Narrow files: for k in '
         '{33,35,37,41,51,63}, tables whose stored k-mers all fit in 64 bits (arms starting with enough A) next to ordinary '
         'rows-shifted copies; nk, align, map, distance, weed (with random filter flags), a delete on the file that weed saved, delete and merge in both argument orders (output under plain and dotted prefixes, and written over one of the inputs) must agree with the '
         'model, and nk must report k_bits=128.  (e) Files whose table is empty after weeding/filtering (samples, no k-mers): read-out and merge as first, last and middle argument against the model.  (d) One build/save/load/read-out per width under Miri (quick: read-out at k=33; thorough: read-out at k=9,31,33,63 and align/weed/delete/map/distance at k=9 and 33), compared with the native run.  Non-trivial: the file has at least one k-mer and (c) really fits in 64 bits; '
@@ -24,7 +24,7 @@ RULE = ('(a) Library round trip through the harness: samples are built in memory
 ASSUMPTIONS = ['in-memory vs reloaded comparison is model-free; part (c) uses the reference model',
                'the harness reload mimics the command-line width dispatch (u64 first, then u128)']
 REQUIRED = {t: ['rt:nk', 'rt:align', 'rt:dist', 'rt:map', 'rt:vcf', 'rt:weed', 'rt:delete', 'cli:align', 'cli:map',
-                'narrow:nk', 'narrow:align', 'narrow:map', 'narrow:distance', 'narrow:weed', 'narrow:weed-then-delete', 'narrow:delete', 'narrow-merge-output:dotted', 'narrow-merge-output:onto-first-input', 'narrow-merge-output:onto-second-input',
+                'narrow:nk', 'narrow:align', 'narrow:map', 'narrow:distance', 'cli-reads:align', 'cli-reads:map', 'narrow:weed', 'narrow:weed-then-delete', 'narrow:delete', 'narrow-merge-output:dotted', 'narrow-merge-output:onto-first-input', 'narrow-merge-output:onto-second-input',
                 'narrow:merge-first', 'narrow:merge-second', 'narrow_files_fit_64_bits', 'multi_frame_files', 'rt_rows_compared', 'miri_round_trips', 'empty:nk', 'empty:merge-first', 'empty:merge-second', 'empty:merge-middle']
             for t in ('quick', 'thorough')}
 NARROW_K = [33, 35, 37, 41, 51, 63]
@@ -44,6 +44,8 @@ def plan(tier, seed, rng, scale):
                       'size': 'big' if i % 15 == 0 else 'small'})
     for i in range(int((120 if tier == 'quick' else 1000) * scale)):
         descs.append({'kind': 'cli', 'seed': rng.getrandbits(32)})
+        if len(descs) % 3 == 0:
+            descs.append({'kind': 'cli-reads', 'seed': rng.getrandbits(32)})
     for k in NARROW_K:
         for rcmode in (True, False):
             descs.append({'kind': 'narrow', 'k': k, 'rc': rcmode, 'seed': rng.getrandbits(32)})
@@ -187,6 +189,58 @@ def run_cli(desc, ctx, res):
                         % (fmt, m1.returncode, m2.returncode), {'samples': samples})
         else:
             res.count('cli:map')
+
+
+def run_cli_reads(desc, ctx, res):
+    """The same two routes with READ files as inputs (one FASTQ per sample): everything the in-memory route assumes by default
+    (k, strands, minimum count, quality rule and threshold) has to be what `ska build` assumes by default."""
+    rng = random.Random(desc['seed'])
+    k = 17
+    ns = rng.randint(2, 4)
+    genome = G.rseq(rng, rng.randint(6 * k, 10 * k))
+    files = []
+    for i in range(ns):
+        g = list(genome)
+        for _ in range(rng.randint(0, 2)):
+            g[rng.randrange(len(g))] = rng.choice('ACGT')
+        g = ''.join(g)
+        reads = []
+        for c_ in range(rng.randint(6, 9)):              # around the default minimum count of 5
+            a_ = 0
+            while a_ < len(g) - k:
+                L_ = rng.randint(2 * k, 4 * k)
+                t_ = g[a_:a_ + L_]
+                q_ = ''.join(chr(33 + (rng.choice([12, 19, 20, 21]) if rng.random() < 0.03 else 40)) for _x in t_)   # a few below / at / above 20
+                reads.append((M.rc(t_), q_[::-1]) if rng.random() < 0.5 else (t_, q_))
+                a_ += rng.randint(k, L_)
+        files.append(ctx.write('r%d.fastq' % i, ''.join('@r%d\n%s\n+\n%s\n' % (j, t_, q_) for j, (t_, q_) in enumerate(reads))))
+    ctx.write('ref.fa', '>chr1\n%s\n' % genome)
+    p = ctx.sh(ctx.ska, 'build', '-o', ctx.path('ro'), *files)          # every option at its default
+    res.evals += 1
+    args = ['--filter', rng.choice(c06_filters()), '--min-freq', rng.choice(['0', '0.5', '1'])]
+    n1, s1, p1 = G.align_output(ctx, files + args)
+    if p.returncode != 0:
+        if n1 is not None:
+            res.violate('C09:cli-reads:align', 'ska build (defaults) refuses the read files, ska align on the same files succeeds', {'seed': desc['seed']})
+        else:
+            res.count('cli-reads:both_refused')
+        return
+    n2, s2, p2 = G.align_output(ctx, [ctx.path('ro.skf')] + args)
+    if n1 is None or n2 is None or n1 != n2 or sorted(M.columns(s1)) != sorted(M.columns(s2)):
+        res.violate('C09:cli-reads:align', 'ska align <read files> %s differs from ska build (defaults) + ska align <skf>: %s vs %s columns'
+                    % (args, None if s1 is None else len(M.columns(s1)), None if s2 is None else len(M.columns(s2))), {'seed': desc['seed']})
+    else:
+        res.count('cli-reads:align')
+        res.nontrivial.append(fingerprint(['cli-reads', desc['seed']]))
+    for fmt in ('aln', 'vcf'):
+        m1 = ctx.sh(ctx.ska, 'map', ctx.path('ref.fa'), *files, '-f', fmt)
+        m2 = ctx.sh(ctx.ska, 'map', ctx.path('ref.fa'), ctx.path('ro.skf'), '-f', fmt)
+        res.evals += 1
+        if m1.returncode != m2.returncode or m1.stdout != m2.stdout:
+            res.violate('C09:cli-reads:map', 'ska map ref <read files> -f %s differs from ska build (defaults) + ska map ref <skf> (exit %d/%d)'
+                        % (fmt, m1.returncode, m2.returncode), {'seed': desc['seed']})
+        else:
+            res.count('cli-reads:map')
 
 
 def narrow_arms(rng, k, rcmode, narrow):
@@ -513,6 +567,8 @@ def run_case(desc, ctx):
         run_rt(desc, ctx, res)
     elif desc['kind'] == 'cli':
         run_cli(desc, ctx, res)
+    elif desc['kind'] == 'cli-reads':
+        run_cli_reads(desc, ctx, res)
     else:
         run_narrow(desc, ctx, res)
     return res
